@@ -21,6 +21,12 @@ QUICK = [
     ('symbolic_capacity', dict(T=2, orders=((0, 2, 2.0), (1, 2, -1.5))), 'B'),
     ('daily_grid_wacc', dict(T=3, freq='d', wacc=True, orders=((0, 2, 2.0), (1, 3, -1.5))), 'A'),
     ('repeated_setup_same_grid', dict(T=3, wacc=True, late_companion=True, warmup=True), 'A'),
+    # steps of different length: payment = capacity x price x covered DURATION, delivery = capacity x each step's own length
+    ('dst_daily_grid_wacc', dict(T=4, freq=('d', '2021-03-27', '2021-03-31', 'CET'), wacc=True, orders=((0, 2, 2.0), (1, 4, -1.5), (1, 2, 1.0))), 'A'),
+    ('monthly_grid', dict(T=4, freq=('MS', '2021-01-01', '2021-05-01', None), orders=((0, 2, 2.0), (1, 3, -1.5), (2, 4, 1.0))), 'A'),
+    # order dates are instants: quoted in another zone / in the repeated hour at the end of daylight saving time
+    ('orders_in_utc_on_cet_grid', dict(T=4, freq=('h', '2021-01-04 00:00', '2021-01-04 04:00', 'CET'), order_tz='UTC', orders=((0, 2, 2.0), (1, 4, -1.5), (2, 3, 1.0))), 'A'),
+    ('orders_in_repeated_dst_hour', dict(T=6, freq=('h', '2021-10-31 00:00', '2021-10-31 05:00', 'CET'), orders=((3, 5, 2.0), (1, 3, -1.5), (2, 4, 1.0))), 'A'),
 ]
 THOROUGH = QUICK + [
     ('overlapping_T4_wacc', dict(T=4, wacc=True, orders=((0, 2, 2.0), (1, 4, -1.5), (1, 2, 1.0), (3, 4, 3.0))), 'A'),
